@@ -461,7 +461,7 @@ class UploadNonSeekableInputManager(UploadInputManager):
         """
         # If the the initial data is empty, we simply read from the fileobj
         if len(self._initial_data) == 0:
-            return fileobj.read(amount)
+            return self._read_from_fileobj(fileobj, amount)
 
         # If the requested number of bytes is less than the amount of
         # initial data, pull entirely from initial data.
@@ -477,12 +477,30 @@ class UploadNonSeekableInputManager(UploadInputManager):
         # satisfy the number of bytes requested. Pull out the remaining
         # initial data and read the rest from the fileobj.
         amount_to_read = amount - len(self._initial_data)
-        data = self._initial_data + fileobj.read(amount_to_read)
+        data = self._initial_data + self._read_from_fileobj(
+            fileobj, amount_to_read
+        )
 
         # Zero out initial data so we don't hang onto the data any more.
         if truncate:
             self._initial_data = b''
         return data
+
+    def _read_from_fileobj(self, fileobj, amount):
+        # A stream that cannot seek (a pipe, a socket, a raw stream) may
+        # return less than asked for before it is exhausted. Keep reading
+        # until the requested amount is there or the stream ended, so that a
+        # short read is neither taken for a small stream nor turned into an
+        # undersized part.
+        chunks = []
+        remaining = amount
+        while remaining > 0:
+            chunk = fileobj.read(remaining)
+            if not chunk:
+                break
+            chunks.append(chunk)
+            remaining -= len(chunk)
+        return b''.join(chunks)
 
     def _wrap_data(self, data, callbacks, close_callbacks):
         """
